@@ -510,6 +510,8 @@ func propertyForFamily(f string) string {
 	switch f {
 	case "wire", "byname":
 		return "C01"
+	case "wrapname":
+		return "C07"
 	case "subst":
 		return "C03"
 	case "life":
